@@ -7,8 +7,10 @@ import (
 	"verifharness/cat"
 	"verifharness/core"
 	"verifharness/explore"
+	"verifharness/ref"
 
 	"github.com/cinar/indicator/v2/strategy"
+	"github.com/cinar/indicator/v2/verifmc/mc"
 )
 
 // Large periods. The period boxes of the catalogue stay small so that every length and capacity can be enumerated; a
@@ -150,4 +152,198 @@ func stratLargeUnit(c *core.Ctx, e *cat.Strat) {
 			}
 		}
 	}
+}
+
+// indLargeValuesUnit is the value / count side of the large periods (C01, C02): one de Bruijn series of 2 200 values through
+// every blown-up configuration shape, outputs counted against the warm-up contract (also for inputs of w-1 .. w+2 values)
+// and compared with the documented formula. A computation that switches to another algorithm from some window length on
+// is not reached by the period boxes.
+func indLargeValuesUnit(c *core.Ctx, e *cat.Ind, prop string) {
+	lrows := alphabet(e.In, true)
+	if len(e.In) > 2 || (len(e.In) == 2 && len(lrows[0]) == len(e.In) && len(lrows) == len(sigmaBars)) {
+		lrows = lrows[:5]
+	}
+	word, _ := deBruijn(len(lrows), 2200)
+	word = word[:2200]
+	mkIn := func(n int) [][]float64 {
+		in := make([][]float64, len(e.In))
+		for f := range in {
+			col := make([]float64, n)
+			for i := range col {
+				col[i] = lrows[word[i]][f]
+			}
+			in[f] = col
+		}
+		return in
+	}
+	for _, f := range largeFactors(c.Thorough()) {
+		for _, cfg := range largeCfgs(e.Cfgs(false), e.Periods, f) {
+			w := e.New(cfg).Idle
+			label := e.Name + fmtCfg(cfg)
+			lens := []int{len(word)}
+			if prop == "C02" {
+				lens = []int{max(0, w-1), w, w + 1, w + 2, len(word)}
+			}
+			for _, n := range lens {
+				if n > len(word) {
+					continue
+				}
+				in := mkIn(n)
+				r := RunInd(e.New(cfg), in, 0, mc.Options{})
+				c.Executions++
+				c.Transitions += int64(r.Res.Events)
+				c.States++
+				c.Evaluations++
+				if !r.Healthy() {
+					c.Count("large-period runs that did not reach clean quiescence (left to C03)", 1)
+					continue
+				}
+				cs := indCase{Indicator: e.Name, Cfg: cfg, Fields: e.In, Idle: w}
+				switch prop {
+				case "C02":
+					want := max(0, n-w)
+					if want > 0 {
+						c.Nontrivial++
+					}
+					for j, o := range r.Outs {
+						if len(o) != want {
+							key := ""
+							if e.Name == "momentum.IchimokuCloud" && j == 4 && len(o) == max(0, n+cat.I(cfg, 3)-w) {
+								key = "ichimoku-lagging-span-longer"
+							}
+							c.Fail(key, fmt.Sprintf("%s n=%d: output %d (%s) has %d values, warm-up contract n-w = %d (w=%d)", label, n, j, e.Out[j], len(o), want, w), cs)
+							break
+						}
+					}
+				case "C01":
+					setScaleFields(e.In, in)
+					ref.Rel, ref.LongSeries = 1e-9*float64(n)/10, true
+					refs := e.Ref(cfg, toRef(in))
+					msg, cm, _ := compareRef(e, r.Outs, refs, w)
+					if cm > 0 {
+						c.Nontrivial++
+					}
+					if msg != "" {
+						key := ""
+						for k2, fn := range e.AsIs {
+							if m2, _, _ := compareRef(e, r.Outs, fn(cfg, toRef(in)), w); m2 == "" {
+								key = k2
+								break
+							}
+						}
+						c.Fail(key, label+" on the de Bruijn series of "+fmt.Sprint(n)+" values: "+msg, cs)
+					}
+					ref.Rel, ref.LongSeries = 1e-9, false
+				}
+			}
+		}
+	}
+}
+
+// Wide networks. Nothing in a pipeline may depend on how many other pipelines are alive in the process: forty pipelines
+// of one indicator side by side in one execution (each with its own producers and readers), and a Majority vote over
+// forty instances of one strategy, must terminate like a single one (a process-wide pool, cache or limit shared between
+// pipelines shows here and nowhere else). One canonical schedule per network: the networks are Kahn networks (their termination does not depend on
+// the schedule), C03's DPOR units decide schedule independence on single pipelines.
+const wideN = 40
+
+func indWideUnit(c *core.Ctx, e *cat.Ind) {
+	cfgs := e.Cfgs(false)
+	if len(cfgs) == 0 {
+		return
+	}
+	cfg := cfgs[len(cfgs)-1]
+	w := e.New(cfg).Idle
+	n := w + 60
+	rows := fixedRows(n)
+	in := make([][]float64, len(e.In))
+	for fi := range e.In {
+		col := make([]float64, n)
+		for i := range col {
+			if idxF, ok := fieldIdx[e.In[fi]]; ok {
+				col[i] = rows[i][idxF]
+			} else {
+				col[i] = rows[i][3] + float64(fi)
+			}
+		}
+		in[fi] = col
+	}
+	sc := func() explore.Exec {
+		var sinks []*Sink[float64]
+		body := func() {
+			for p := 0; p < wideN; p++ {
+				inst := e.New(cfg)
+				chans := make([]cat.Ch, len(in))
+				for i := range in {
+					chans[i] = Feed(in[i], 0)
+				}
+				for _, o := range inst.Compute(chans) {
+					sinks = append(sinks, Collect(o))
+				}
+			}
+		}
+		observe := func(res *mc.Result) (string, string) {
+			out := ""
+			per := len(sinks) / wideN
+			for i, s := range sinks {
+				if i >= per && fmtF(s.Vals) != fmtF(sinks[i%per].Vals) {
+					out = fmt.Sprintf("pipeline %d delivers other values than pipeline 0", i/per)
+				}
+			}
+			return out, quiescenceVerdict(res, func() (int, int) {
+				open := 0
+				for _, s := range sinks {
+					if !s.Closed {
+						open++
+					}
+				}
+				return open, len(sinks)
+			})
+		}
+		return explore.Exec{Body: body, Observe: observe}
+	}
+	cs := map[string]any{"indicator": e.Name, "config": cfg, "pipelines": wideN, "input_length": n}
+	exploreWide(c, fmt.Sprintf("%d pipelines of %s%s side by side on %d values", wideN, e.Name, fmtCfg(cfg), n), sc, cs, true)
+}
+
+func stratWideUnit(c *core.Ctx, e *cat.Strat) {
+	cfgs := e.Cfgs(false)
+	if len(cfgs) == 0 {
+		return
+	}
+	cfg := cfgs[len(cfgs)-1]
+	n := e.Warm(cfg) + 60 // far more than the slack of the stages: every member is alive for most of the run
+	snaps := cat.Snapshots(fixedRows(n))
+	mk := func() strategy.Strategy {
+		members := make([]strategy.Strategy, wideN)
+		for i := range members {
+			members[i] = e.New(cfg)
+		}
+		return strategy.NewMajorityStrategyWith("wide", members)
+	}
+	cs := map[string]any{"strategy": e.Name, "config": cfg, "members": wideN, "snapshots": n}
+	exploreWide(c, fmt.Sprintf("Majority over %d instances of %s%s on %d snapshots", wideN, e.Name, fmtCfg(cfg), n), stratPipeScenario(mk, snaps, 0), cs, false)
+}
+
+func exploreWide(c *core.Ctx, label string, sc explore.Scenario, cs map[string]any, outcomeIsMessage bool) {
+	for _, st := range []*explore.Stats{explore.S0(sc, explore.Opts{})} {
+		c.Executions += int64(st.Executions)
+		c.Transitions += int64(st.Events)
+		if st.Internal != "" {
+			c.InternalError(label + ": " + st.Internal)
+			return
+		}
+		for o := range st.Outcomes {
+			if o != "" && outcomeIsMessage {
+				c.Fail("", label+": "+o, cs)
+			}
+		}
+		for _, v := range st.Violations {
+			c.Fail("", fmt.Sprintf("%s (schedule %v): %s", label, compact(v.Choices), v.Text), cs)
+			break
+		}
+	}
+	c.States++
+	c.Evaluations++
+	c.Nontrivial++
 }
